@@ -531,6 +531,24 @@ class propagator_cpmc(propagator_unrestricted):
         )
         return prop_data
 
+    @partial(jit, static_argnums=(0, 2))
+    def _build_propagation_intermediates(
+        self, ham_data: dict, trial: wave_function, wave_data: dict
+    ) -> dict:
+        ham_data = propagator_unrestricted._build_propagation_intermediates(
+            self, ham_data, trial, wave_data
+        )
+        # the discrete Hubbard-Stratonovich constants carry the one-body part of the
+        # interaction already: the half steps use the bare one-body Hamiltonian, without the
+        # normal-ordering and mean-field terms of the phaseless propagator
+        ham_data["exp_h1"] = jnp.array(
+            [
+                jsp.linalg.expm(-self.dt * ham_data["h1"][0] / 2.0),
+                jsp.linalg.expm(-self.dt * ham_data["h1"][1] / 2.0),
+            ]
+        )
+        return ham_data
+
     @partial(jit, static_argnums=(0, 1))
     def propagate_one_body(
         self,
@@ -1227,6 +1245,8 @@ class propagator_cpmc_nn(propagator_cpmc, propagator_unrestricted):
 @dataclass
 class propagator_cpmc_nn_slow(propagator_unrestricted):
     neighbors: Optional[tuple] = None
+
+    _build_propagation_intermediates = propagator_cpmc._build_propagation_intermediates
 
     def init_prop_data(
         self,
